@@ -43,6 +43,7 @@
 #define REF_TAIL (FEAT_CSUM >= 2 ? 4 : 0)
 #define REF_RL (FEAT_64BIT ? 8 : 4)
 #define REF_MAXT ((B - REF_TAIL - 12) / REF_TB)
+#define REF_OSTEP ((REF_TB % 4) ? 2 : 4)	/* every reachable tag offset is 12 + a*TB + b*16 */
 
 struct ref_step { unsigned pos; unsigned char type; unsigned char nt; unsigned ord; };
 static struct ref_step ref_steps[REF_MAXWALK];
@@ -94,7 +95,7 @@ static unsigned ref_parse_tags(const unsigned char *d, struct ref_tag *tags)
 	unsigned off = 12, n = 0, o, q, flags;
 	int done = 0;
 
-	for (o = 12; o + REF_TB <= B - REF_TAIL; o += 2) {
+	for (o = 12; o + REF_TB <= B - REF_TAIL; o += REF_OSTEP) {
 		if (done || o != off)
 			continue;
 		flags = ((unsigned) d[o + 6] << 8) | d[o + 7];
